@@ -305,8 +305,8 @@ func c20Run(tier string, idx int, r *Result) {
 		return
 	}
 	bound := 1
-	if tier == "thorough" {
-		bound = 2
+	if tier == "thorough" && passes == 1 {
+		bound = 2 // (two deviations over two or three passes do not fit the tier's budget)
 	}
 	if strings.HasPrefix(in.name, "small:") && passes == 1 && (tier == "quick" || strings.HasPrefix(in.name, "small:constant")) {
 		bound++ // one pass over a small input: one deviation deeper
@@ -402,8 +402,8 @@ func c20Run(tier string, idx int, r *Result) {
 func init() {
 	register("C20", func() *Check {
 		return &Check{ID: "C20", Scenarios: []Scenario{
-			{Name: "transformer-draw-sequences", Count: func(string) int { return (len(c20Inputs) + len(c20Examples)) * 3 }, Run: c20Run},
 			{Name: "pass-by-pass-closure", Count: func(string) int { return len(c20Tiny) }, Run: c20Closure},
+			{Name: "transformer-draw-sequences", Count: func(string) int { return (len(c20Inputs) + len(c20Examples)) * 3 }, Run: c20Run},
 		}}
 	})
 }
